@@ -162,6 +162,11 @@ func (s *State) slash(v *Val, power int64, fRaw *big.Int) {
 	if amt.Cmp(v.Stake) > 0 {
 		amt.Set(v.Stake)
 	}
+	if amt.Sign() == 0 {
+		// nothing is removed, so the stake does not "fall below the minimum" through this slash (it
+		// can already be below it when governance raised the minimum): nothing else happens
+		return
+	}
 	s.burnStake(v, amt)
 	if v.Stake.Cmp(big.NewInt(s.P.Min)) < 0 {
 		s.forceUnstake(v)
